@@ -11,6 +11,7 @@
   `GIV/Lemmas/LockedfileWrite.lean` (invariant WriteOK).
 -/
 import GIV.Lemmas.LockedfileWrite
+import GIV.Lemmas.LockedfileLinHist
 
 namespace GIV.C07
 open GIV GIV.Lockedfile
@@ -373,5 +374,130 @@ def demoTF2 : List Label :=
 
 example : (((run demoTF2).bind fun s => (s.cl 0).cur).map fun fr => (fr.pc, fr.committed)) =
       some (.done .err, some [113, 121, 122]) := by decide +kernel
+
+/-! ### linearizability, classical formulation (Herlihy–Wing): a total order of the operations exists
+
+Definitions in `GIV/Lemmas/LockedfileLinHist.lean`: `history files0 p ls` = the invocation / response events of
+the Read / Write / Transform calls on file `p` in the execution `ls` from `init files0` (every event carries its
+operation's identifier, the client, and the content written / the function applied / the value returned);
+`specStep` / `specRun` = the sequential specification of one file as a register; `commitOrder files0 p ls` =
+the ghost commit order (each operation enters it at the step that releases its flock — for Write / Transform
+the step that pushes its commit on `World.hist`; an operation that never got the lock enters it when it returns).
+Operations still in progress at the end of the execution are completed if they have passed that point (with
+the result they are about to return) and dropped otherwise: the usual completion rule. -/
+
+/-- **linearizable_exists_order**: for every execution `ls` of the model (any number of clients, any
+interleaving) in which, in every state it passes through, every operation running on `p` is a Read, Write or
+Transform, no fault has been injected into a Read or Write on `p` (as in `write_commits`), and at most one
+fault, at a data step, into each Transform on `p` (as in `transform_fault`) — **there is a total order `ord` of
+the operations of the history** such that
+(1) no operation occurs twice;
+(2) every operation of `ord` was invoked in the history, and if it completed it has in `ord` the result it has in
+    the history;
+(3) every completed operation is in `ord`;
+(4) `ord` respects real time: if A's response precedes B's invocation in the history, A comes before B;
+(5) `ord` is a legal sequential execution of the register specification (`specRun`: Read returns the current
+    contents, Write v sets them, Transform t sets them to `t x`, or leaves them unchanged when it reports an
+    error) starting from the initial contents of `p`.
+If `ls` is not an execution of the model its history is empty by definition. -/
+theorem linearizable_exists_order (files0 : Path → Option Bytes) (p : Path) (ls : List Label)
+    (hok : Along (StateOK p) (init files0) ls) :
+    ∃ ord : List OpRec,
+      (ord.map (·.id)).Nodup ∧
+      (∀ o ∈ ord, Ev.inv o.id o.c o.op ∈ history files0 p ls ∧
+        ∀ r, Ev.res o.id o.c r ∈ history files0 p ls → r = o.ret) ∧
+      (∀ id c r, Ev.res id c r ∈ history files0 p ls → ∃ o ∈ ord, o.id = id ∧ o.c = c) ∧
+      (∀ a ∈ ord, ∀ b ∈ ord,
+        List.Sublist [Ev.res a.id a.c a.ret, Ev.inv b.id b.c b.op] (history files0 p ls) → List.Sublist [a, b] ord) ∧
+      (specRun (contentOf (files0 p)) ord).isSome = true :=
+  linearizable_history files0 p ls hok
+
+/-- **linearizable_exists_order_fault_free**: the same with a hypothesis on the labels only — no step injects a
+fault and all calls on `p` are Read / Write / Transform — and with the witness named: the ghost commit order. -/
+theorem linearizable_exists_order_fault_free (files0 : Path → Option Bytes) (p : Path) (ls : List Label)
+    (hff : FaultFree p ls) :
+    LinearizedBy (contentOf (files0 p)) (history files0 p ls) (commitOrder files0 p ls) :=
+  linearizable_history_fault_free files0 p ls hff
+
+/-- **linearization_final_contents**: the sequential execution in commit order ends in the newest committed value,
+and that is what the file contains at the end of the execution if nobody holds its exclusive lock then. -/
+theorem linearization_final_contents (files0 : Path → Option Bytes) (p : Path) (ls : List Label) {s' : State}
+    (hrun : runLabels (init files0) ls = some s') (hok : Along (StateOK p) (init files0) ls) :
+    specRun (contentOf (files0 p)) (commitOrder files0 p ls) = (s'.w.hist p).head? ∧
+    ((s'.w.locks p).ex = none → specRun (contentOf (files0 p)) (commitOrder files0 p ls) = some (s'.w.content p)) :=
+  commitOrder_final files0 p ls hrun hok
+
+/-- Non-vacuity: two processes on file 0 (which does not exist at first).  Client 0: Write "ab", then Read;
+client 1: Transform (append "c").  Both are called before either has opened the file; the Write gets the lock
+first, the Transform reads under its own lock while the Write is still closing, the Write returns while the
+Transform is running, the Read is called after that and blocks until the Transform has unlocked. -/
+def appendC : Bytes → Option Bytes := fun b => some (b ++ [99])
+
+def demoLin : List Label :=
+  [⟨0, .call (.write 0 [97, 98])⟩, ⟨1, .call (.transform 0 appendC)⟩,
+   sy 0, sy 1,                 -- both open
+   sy 0, sy 0, sy 0, sy 0,     -- Write: flock, ftruncate, write, unlock (commit "ab")
+   sy 1, sy 0, sy 1,           -- Transform: flock; Write: close; Transform: read
+   ⟨0, .ret⟩,                  -- Write returns
+   ⟨0, .call (.read 0)⟩, sy 0, -- Read is called and opens
+   sy 1, sy 1, sy 1, sy 1,     -- Transform: read (EOF), tail pwrite, body pwrite, unlock (commit "abc")
+   sy 0, sy 1, sy 0, sy 0,     -- Read: flock; Transform: close; Read: read, read (EOF)
+   ⟨1, .ret⟩, sy 0, sy 0, ⟨0, .ret⟩]
+
+/-- it is an execution of the model, it satisfies the hypothesis; its history (operation 0 = the Write, 1 = the
+Transform, 3 = the Read: identifiers are positions of the invocation events); the witnessing order: Write,
+Transform, Read, with results nil, nil, "abc"; and the file ends up containing "abc". -/
+example : (run demoLin).isSome = true ∧ FaultFree 0 demoLin ∧
+    (history noFiles 0 demoLin).map Ev.sig =
+      [⟨0, 0, some (1, [97, 98]), none⟩, ⟨1, 1, some (2, []), none⟩, ⟨0, 0, none, some .ok⟩,
+       ⟨3, 0, some (0, []), none⟩, ⟨1, 1, none, some .ok⟩, ⟨3, 0, none, some (.bytes [97, 98, 99])⟩] ∧
+    (commitOrder noFiles 0 demoLin).map OpRec.sig =
+      [⟨0, 0, (1, [97, 98]), .ok⟩, ⟨1, 1, (2, []), .ok⟩, ⟨3, 0, (0, []), .bytes [97, 98, 99]⟩] ∧
+    specRun [] (commitOrder noFiles 0 demoLin) = some [97, 98, 99] ∧
+    ((run demoLin).map fun s => s.w.content 0) = some [97, 98, 99] := by
+  decide +kernel
+
+example : Linearizable [] (history noFiles 0 demoLin) :=
+  linearizable_exists_order noFiles 0 demoLin (faultFree_along demoLin (by decide +kernel) (fun c fr h => by simp [init] at h))
+
+example : LinearizedBy [] (history noFiles 0 demoLin) (commitOrder noFiles 0 demoLin) :=
+  linearizable_exists_order_fault_free noFiles 0 demoLin (by decide +kernel)
+
+example : specRun [] (commitOrder noFiles 0 demoLin) = some [97, 98, 99] :=
+  ((linearization_final_contents noFiles 0 demoLin (Option.some_get (by decide +kernel : (run demoLin).isSome = true)).symm
+    (faultFree_along demoLin (by decide +kernel) (fun c fr h => by simp [init] at h))).2 (by decide +kernel)).trans
+    (by decide +kernel)
+
+/-- Non-vacuity with a fault: client 0 writes "xyz" and returns; then client 1 calls Transform ("xyz" ↦ "q") and
+client 0 calls Read, concurrently.  The Transform gets the lock first; its body write fails (injected fault, its
+only one), the deferred roll-back restores "xyz", it returns an error.  The Read (blocked meanwhile) returns "xyz". -/
+def demoLinF : List Label :=
+  [⟨0, .call (.write 0 [120, 121, 122])⟩, sy 0, sy 0, sy 0, sy 0, sy 0, sy 0, ⟨0, .ret⟩,
+   ⟨1, .call (.transform 0 (fun _ => some [113]))⟩, ⟨0, .call (.read 0)⟩,
+   sy 1, sy 0,                          -- both open
+   sy 1, sy 1, sy 1,                    -- Transform: flock, read, read (EOF)
+   ⟨1, .sys .fail 0⟩,                   -- its body pwrite fails
+   sy 1, sy 1, sy 1,                    -- roll-back pwrite, roll-back ftruncate, unlock (re-commits "xyz")
+   sy 0, sy 1, sy 0, sy 0,              -- Read: flock; Transform: close; Read: read, read (EOF)
+   ⟨1, .ret⟩, sy 0, sy 0, ⟨0, .ret⟩]
+
+/-- the execution satisfies the hypothesis of `linearizable_exists_order` (checked state by state: `alongb`), it
+is not fault-free; its history; the witnessing order: Write (nil), Transform (error, no effect), Read ("xyz"). -/
+example : (run demoLinF).isSome = true ∧ alongb 0 2 (init noFiles) demoLinF = true ∧ ¬ FaultFree 0 demoLinF ∧
+    (history noFiles 0 demoLinF).map Ev.sig =
+      [⟨0, 0, some (1, [120, 121, 122]), none⟩, ⟨0, 0, none, some .ok⟩, ⟨2, 1, some (2, []), none⟩,
+       ⟨3, 0, some (0, []), none⟩, ⟨2, 1, none, some .err⟩, ⟨3, 0, none, some (.bytes [120, 121, 122])⟩] ∧
+    (commitOrder noFiles 0 demoLinF).map OpRec.sig =
+      [⟨0, 0, (1, [120, 121, 122]), .ok⟩, ⟨2, 1, (2, []), .err⟩, ⟨3, 0, (0, []), .bytes [120, 121, 122]⟩] ∧
+    specRun [] (commitOrder noFiles 0 demoLinF) = some [120, 121, 122] := by
+  decide +kernel
+
+example : Linearizable [] (history noFiles 0 demoLinF) :=
+  linearizable_exists_order noFiles 0 demoLinF (alongb_sound (N := 2) demoLinF (fun _ _ => rfl) (by decide +kernel))
+
+/-- why the hypothesis says "at most one fault in a Transform": with a second fault, in the roll-back (`demoTF2`
+above), the contents the Transform leaves behind are neither the old nor the new ones — and the checker of the
+hypothesis rejects that execution. -/
+example : alongb 0 1 (init noFiles) demoTF2 = false := by decide +kernel
 
 end GIV.C07
